@@ -268,6 +268,10 @@ class RTok(object):
         elif c is None:
             self.ch_ref("<")
             self.eof()
+        elif c == ">" and self.want_pieces:
+            # same text; html5lib emits the two characters "<>" as one character token
+            self.ch_ref("<>")
+            self.state = "data"
         else:
             self.ch_ref("<")
             self.back()
